@@ -302,11 +302,80 @@ class Table:
                     mem = sorted(mem, key=lambda r: self.fmt(r))
                     conj = RF(self, p_atom(self.intern('bool', tuple(mem), 'And', None)))
                     return RF(self, p_atom(self.intern('unop', (conj,), 'Not', None)))
+                if extra == 'And' and 2 * nneg > len(lits):
+                    # ... and a conjunction in which MORE than half are negated as the negation of the disjunction of their
+                    # opposites: x != a and x != b  ==  not (x == a or x == b)
+                    mem = [c if f else RF(self, p_atom(self.intern('unop', (c,), 'Not', None))) for c, f in lits]
+                    mem = sorted(mem, key=lambda r: self.fmt(r))
+                    disj = RF(self, p_atom(self.intern('bool', tuple(mem), 'Or', None)))
+                    return RF(self, p_atom(self.intern('unop', (disj,), 'Not', None)))
                 mem = [RF(self, p_atom(self.intern('unop', (c,), 'Not', None))) if f else c for c, f in lits]
                 mem = sorted(mem, key=lambda r: self.fmt(r))
                 return RF(self, p_atom(self.intern('bool', tuple(mem), extra, None)))
             finally:
                 self._in_bool = False
+        # slice bounds counted from a known length: x[a:len(x)] is x[a:], x[:len(x) - 1] is x[:-1]
+        if head == 'idx' and len(args) == 2 and isinstance(args[0], RF) and isinstance(args[1], Slice) and \
+                args[1].hi is not None and args[1].step is None and args[1].hi.const() is None and \
+                not getattr(self, '_in_lenidx', False):
+            self._in_lenidx = True
+            try:
+                L_ = None
+                ba_ = args[0].single_atom()
+                if ba_ is not None and self.atoms[ba_].head == 'alloc' and isinstance(self.atoms[ba_].args[0], RF):
+                    za_ = self.atoms[ba_].args[0].single_atom()
+                    if za_ is not None and self.atoms[za_].head == 'call' and self.atoms[za_].extra and \
+                            self.atoms[za_].extra[0] in ('fn:zeros', 'fn:ones', 'fn:empty') and self.atoms[za_].args and \
+                            isinstance(self.atoms[za_].args[0], RF):
+                        n0 = self.atoms[za_].args[0]
+                        na = n0.single_atom()
+                        if na is not None and self.atoms[na].head == 'tuple':
+                            n0 = self.atoms[na].args[0] if self.atoms[na].args and isinstance(self.atoms[na].args[0], RF) else None
+                        L_ = n0
+                cands = [x for x in (L_, self.atom('call', (args[0],), extra=('fn:len',))) if x is not None]
+            finally:
+                self._in_lenidx = False
+            for L0 in cands:
+                c_ = (args[1].hi - L0).const()
+                if c_ is not None and c_.denominator == 1 and c_ <= 0:
+                    nh = None if c_ == 0 else self.const(c_)
+                    sl_ = Slice(args[1].lo, nh, None)
+                    if sl_.is_full():
+                        return args[0]
+                    return self.atom('idx', (args[0], sl_))
+        # counting from the end: x[len(x) - k] is x[-k]
+        if head == 'idx' and len(args) == 2 and isinstance(args[0], RF) and isinstance(args[1], RF) and \
+                args[1].const() is None and not getattr(self, '_in_lenidx', False):
+            self._in_lenidx = True
+            try:
+                off = args[1] - self.atom('call', (args[0],), extra=('fn:len',))
+            finally:
+                self._in_lenidx = False
+            c_ = off.const()
+            if c_ is not None and c_.denominator == 1 and c_ < 0:
+                return self.atom('idx', (args[0], self.const(c_)))
+        # a column picked first and a row second is the element picked at once: x[:, j][i] is x[i, j]
+        if head == 'idx' and len(args) == 2 and isinstance(args[0], RF) and args[0].single_atom() is not None and \
+                isinstance(args[1], RF):
+            in_ = self.atoms[args[0].single_atom()]
+            if in_.head == 'idx' and len(in_.args) >= 3 and isinstance(in_.args[1], Slice) and in_.args[1].is_full() and \
+                    all(isinstance(x, RF) for x in in_.args[2:]):
+                return self.atom('idx', (in_.args[0], args[1]) + tuple(in_.args[2:]))
+        # one spelling for the size of the first axis and for the number of axes: x.shape[0] is len(x), x.ndim is
+        # len(x.shape)  (identical wherever both spellings are valid)
+        if head == 'attr' and len(args) == 1 and isinstance(args[0], str) and args[0].endswith('.ndim'):
+            return self.atom('call', (self.atom('attr', (args[0][:-5] + '.shape',)),), extra=('fn:len',))
+        if head == 'getattr' and len(args) == 2 and args[1] == 'ndim' and isinstance(args[0], RF):
+            return self.atom('call', (self.atom('getattr', (args[0], 'shape')),), extra=('fn:len',))
+        if head == 'idx' and len(args) == 2 and isinstance(args[0], RF) and isinstance(args[1], RF) and \
+                args[1].const() == 0 and args[0].single_atom() is not None:
+            sa0 = self.atoms[args[0].single_atom()]
+            if sa0.head == 'getattr' and len(sa0.args) == 2 and sa0.args[1] == 'shape' and isinstance(sa0.args[0], RF):
+                return self.atom('call', (sa0.args[0],), extra=('fn:len',))
+            if sa0.head == 'attr' and isinstance(sa0.args[0], str) and sa0.args[0].endswith('.shape'):
+                pfx = sa0.args[0][:-6]
+                base_ = self.atom('attr', (pfx,)) if '.' in pfx else self.name(pfx)
+                return self.atom('call', (base_,), extra=('fn:len',))
         if head == 'idx' and len(args) == 2 and isinstance(args[0], RF) and getattr(self, 'scalars', None):
             # quantities a rule declares scalar (a radius, the first element of a 1-D array): picking an element
             # or a slice of an expression leaves them alone, so hoisting `r = R + z` out of a loop and writing
@@ -322,6 +391,10 @@ class Table:
                 n_ = None
                 if seq.head == 'tuple':
                     n_ = len(seq.args)
+                elif seq.head == 'call' and seq.extra and getattr(self, 'ret_len', None) is not None and \
+                        self.ret_len(seq.extra[0]) is not None:
+                    # a function of the analysed tree whose every return is a tuple of n items
+                    n_ = self.ret_len(seq.extra[0])
                 elif seq.head == 'call' and seq.extra == ('fn:sorted',) and len(seq.args) == 1 and \
                         isinstance(seq.args[0], RF) and seq.args[0].single_atom() is not None and \
                         self.atoms[seq.args[0].single_atom()].head == 'tuple':
@@ -749,6 +822,13 @@ class Conv:
                 ops = ({'Gt': 'Lt', 'GtE': 'LtE'}[ops[0]],)
             elif len(ops) == 1 and ops[0] in ('Eq', 'NotEq'):
                 args = sorted(args, key=lambda r: t.fmt(r))
+            if len(ops) == 1 and ops[0] in ('In', 'NotIn') and isinstance(n.comparators[0], (ast.Tuple, ast.List, ast.Set)) \
+                    and 1 <= len(n.comparators[0].elts) <= 3 and not any(isinstance(e, ast.Starred) for e in n.comparators[0].elts):
+                # membership in a literal collection is the disjunction of the equalities: x in (a, b)  ==  x == a or x == b
+                eqs = [t.atom('cmp', tuple(sorted([args[0], self.expr(e)], key=lambda r: t.fmt(r))), extra=('Eq',))
+                       for e in n.comparators[0].elts]
+                d_ = eqs[0] if len(eqs) == 1 else t.atom('bool', tuple(eqs), extra='Or')
+                return d_ if ops[0] == 'In' else t.atom('unop', (d_,), extra='Not')
             if len(ops) == 1 and ops[0] in ('Is', 'IsNot'):
                 r = self._none_test(args, ops[0])
                 if r is not None:
@@ -853,7 +933,7 @@ class Conv:
                 return '(' + ','.join(shape(e) for e in x.elts) + ')'
             raise ValueError
         # a list comprehension over a literal sequence is the literal of its items: [f(x) for x in (a, b)] is [f(a), f(b)]
-        if isinstance(n, ast.ListComp) and len(n.generators) == 1 and not n.generators[0].ifs and \
+        if isinstance(n, (ast.ListComp, ast.GeneratorExp)) and len(n.generators) == 1 and not n.generators[0].ifs and \
                 not n.generators[0].is_async and isinstance(n.generators[0].target, ast.Name):
             it0 = self._iterand(self.expr(n.generators[0].iter))
             a0 = it0.single_atom()
@@ -897,7 +977,9 @@ class Conv:
             elt = t.atom('tuple', (c.expr(n.key), c.expr(n.value)))
         else:
             elt = c.expr(n.elt)
-        return t.atom('comp', (elt,) + tuple(parts), extra=(type(n).__name__,) + tuple(shapes), node=n)
+        # a generator expression yields the items the list comprehension holds (it is consumed by the call it is written in)
+        kind = 'ListComp' if isinstance(n, ast.GeneratorExp) else type(n).__name__
+        return t.atom('comp', (elt,) + tuple(parts), extra=(kind,) + tuple(shapes), node=n)
 
     def _iterand(self, it):
         """what a loop over `it` visits: list(x) / tuple(x) visit the items of x"""
@@ -1044,6 +1126,11 @@ class Conv:
             # call through an expression / a local bound to a value
             return t.atom('callexpr', tuple([self.expr(n.func)] + args + kwv),
                           extra=kwn or None)
+        if recv is not None and name == 'dot' and len(args) == 1 and not kw:
+            # a.dot(b) is np.dot(a, b)
+            d0_ = dotted(recv)
+            if not (d0_ is not None and d0_.split('.')[0] in NUMERIC_MODULES):
+                return t.atom('call', (recv_rf if recv_rf is not None else self.expr(recv), args[0]), extra=('fn:dot',))
         if recv is not None:
             if recv_rf is None:
                 recv_rf = self.expr(recv)
@@ -1112,7 +1199,14 @@ class Conv:
                         return t.atom('idx', (nargs[0], t.const(-1)))
                     return None
                 parts = [t.rewrite(x, last1) for x in parts]
-                return t.atom('call', (t.atom('tuple', tuple(parts)),), extra=('fn:concatenate',))
+                flat = []
+                for x in parts:
+                    xa = x.single_atom()
+                    if xa is not None and t.atoms[xa].head == 'tuple' and all(isinstance(y, RF) for y in t.atoms[xa].args):
+                        flat.extend(t.atoms[xa].args)       # a literal [s] joins its items
+                    else:
+                        flat.append(x)
+                return t.atom('call', (t.atom('tuple', tuple(flat)),), extra=('fn:concatenate',))
         if name in ('log', 'log10', 'log2') and len(args) == 1 and not kw:
             return t.log(name, args[0])
         if name in ('exp', 'abs', 'fabs') and len(args) == 1 and not kw:
